@@ -239,6 +239,10 @@ class Interp:
                 r = ("raise", e)
             except PathEnd as e:
                 r = ("end", e)
+            except Unsupported as e:
+                # the engine (or the contract code, e.g. on a result of an unexpected shape) cannot go on along this
+                # path: a checker error for the scenario -- but what was obliged BEFORE that point still counts
+                r = ("unsupported", e)
             results.append((self.ctx, list(self.decisions), r))
         return results
 
